@@ -398,6 +398,9 @@ func c13FootOpsCase(r *Rng, sc c04Schema, n int) *sx.Node {
 	}
 	var calls []*sx.Node
 	for _, o := range c12History(r, sc, n) {
+		if o.Head() == "cs" { // schema-vs-schema compatibility calls (C12/C15) are not data operations: no footprint model
+			continue
+		}
 		if !c12Collides(o.List[1]) { // D19: the verdict itself depends on the iteration order
 			calls = append(calls, o)
 		}
